@@ -34,7 +34,7 @@ ASSUMPTIONS = [
 def cases(draw, kinds=gen_tables.KINDS):
     spec = draw(gen_tables.cid_specs(kinds=kinds))
     rows = draw(gen_tables.tables(spec))
-    via = draw(st.sampled_from(["stream", "path", "stream", "path", "file-stream", "fd-stream"]))
+    via = draw(st.sampled_from(["stream", "path", "stream", "path", "file-stream", "fd-stream", "spooled-stream"]))
     if spec["fmt"]["format"] not in ("delimited", "fixed") and via.endswith("-stream"):
         via = "path"
     return {"spec": spec, "rows": rows, "via": via}
